@@ -6,12 +6,18 @@
 
   Clauses of the property text and the theorems that carry them (model = the code with fixes D1, D2, D3)
     gauge never pays more than deposited ........ asset_gauge_bounded, rollapp_gauge_bounded, gauge_bounded
-    stream never pays more than its total ....... stream_epoch_bounded (per epoch), stream_bounded (all histories)
+    stream never pays more than its total ....... stream_epoch_bounded (per epoch), stream_bounded (all admissible
+                                                  histories; `Admissible` excludes governance re-targeting, see
+                                                  stream_bounded_retarget_counterexample)
     module accounts hold the undistributed rest . module_solvent_incentives, module_solvent_streamer
     rewards reach only qualifying owners ........ recipients_legit, asset_rewards_proportional
-    independence from the iteration limit ....... paging_independent, paging_exactly_once, paging_progress,
-                                                  paging_effect (iterator level, id-sorted list — which
-                                                  `sortById` in `Distribute` now guarantees)
+    independence from the iteration limit ....... iterator level, every sequence of limits: paging_independent,
+                                                  paging_exactly_once, paging_progress, paging_effect; their
+                                                  hypothesis holds for what `Distribute` iterates
+                                                  (distribute_data_sorted); state level: paging_never_overserves
+                                                  (no EndBlock hands out more than was pending, any limit).
+                                                  NOT proved at state level: that nothing pending is lost over an
+                                                  epoch (two-run equality); regressions below + differential run.
   Endorsement gauges / sponsored streams are C16's (not in M-Incent).
 -/
 import DymVerif.Lemmas.IncentInv
@@ -232,6 +238,52 @@ theorem paging_revisit_counterexample :
     let data : List SView := [⟨3, 1, [⟨1, 1⟩, ⟨2, 1⟩]⟩, ⟨2, 1, [⟨1, 1⟩, ⟨2, 1⟩]⟩]
     (pagedRun data 1 Pointer.first [⟨3, unitCb, ()⟩, ⟨3, unitCb, ()⟩]).2
       = [(0, 0), (0, 1), (1, 0), (0, 1), (1, 0), (1, 1)] := by decide
+
+/-- **the hypothesis of the paging theorems holds for the list `Keeper.Distribute` iterates** (fix D2): in
+    every state satisfying the invariant the sorted copies of the active streams form `SortedData` -/
+theorem distribute_data_sorted (s : State) (hi : Inv s) :
+    SortedData ((sortById (activeStreams s)).map Stream.view) := by
+  have hin := sortById_good s (activeStreams s) (activeStreams_good s hi.struct)
+  have hgc : GoodCache ⟨sortById (activeStreams s), [], []⟩ := by
+    refine ⟨hin.1, sorted_sortById _, ?_, ?_⟩
+    · intro st hm
+      exact hi.stat.recs st (mem_streamsOf ((mem_sortById _ st).1 hm))
+    · intro st hm
+      have := id_le_length hi.struct.sid (mem_streamsOf ((mem_sortById _ st).1 hm))
+      have := hi.len
+      omega
+  exact hgc.sortedData
+
+/-- **state level, every value of the per-block limit**: one streamer EndBlock never makes a stream hand out
+    more than what was pending for it — `distributed' + pending' ≤ distributed + pending` for every stream in
+    the cache (pending = shares of its records at or after its epoch's stored pointer) -/
+theorem paging_never_overserves (s s' : State) (hi : Inv s) (h : streamerEndBlock s = .ok s') :
+    ∀ st' ∈ s'.streams, ∀ st0 ∈ s.streams, st0.id = st'.id → st0.id ∈ s.active.ids → ∀ i,
+      amt st'.distributed i + pendId (ptrOfEpoch s' st'.epochId) st' i ≤ amt st0.distributed i + pendId (ptrOfEpoch s st0.epochId) st0 i := by
+  intro st' hm' st0 hm0 hid hact i
+  unfold streamerEndBlock at h
+  have hin := activeStreams_good s hi.struct
+  have hst : ∀ st ∈ activeStreams s, StrictInc (st.recs.map (·.gauge)) ∧ st.id < maxU64 := by
+    intro st hm
+    have hmem := mem_streamsOf hm
+    exact ⟨hi.stat.recs st hmem, by have := id_le_length hi.struct.sid hmem; have := hi.len; omega⟩
+  have hc := strDistribute_core s _ _ _ _ s' hi.ginv hi.struct hin hst h
+  have hs' := (strDistribute_streams s _ _ _ _ s' hi.ginv hi.struct hin h).1
+  rcases core_cases s _ _ false s' hc hi.struct hs' st' hm' with ⟨_, a2, _⟩ | ⟨v, st1, b1, _, b3, b4, b5, _⟩
+  · exfalso
+    apply a2
+    rw [activeStreams_ids s hi.struct, ← hid]; exact hact
+  · have hv : st' = v := by rw [b4]; rfl
+    have h10 : st1 = st0 := by
+      have e1 := getS_of_mem hi.struct.sid b1
+      have e0 := getS_of_mem hi.struct.sid hm0
+      have : st1.id = st0.id := by rw [hid, hv, b3]
+      rw [this, e0] at e1
+      exact (Option.some.inj e1).symm
+    rw [hv]
+    unfold ptrOfEpoch
+    rw [← h10]
+    exact b5 i
 
 /-! ## 5. streams -/
 
